@@ -1,5 +1,57 @@
+//! vh-gate: checks about what a request is allowed to reach — introspection
+//! modes (C19), secret masking in logged query text (C21), persisted queries (C31).
+//!
+//! Every resolver of every schema built here appends an `Event` to a shared
+//! `EvLog`; the monitors read (and clear) it after each request.
+
+use std::sync::{Arc, Mutex};
+
+mod c19;
+mod c21;
+mod c31;
+
+#[derive(Clone, Debug, PartialEq, Eq)]
+pub struct Event {
+    /// "query" | "mutation" | "subscription" | "entity" | "field"
+    pub kind: &'static str,
+    pub field: String,
+    pub args: String,
+}
+
+#[derive(Clone, Default)]
+pub struct EvLog(Arc<Mutex<Vec<Event>>>);
+
+impl EvLog {
+    pub fn push(&self, kind: &'static str, field: &str, args: String) {
+        self.0.lock().unwrap().push(Event {
+            kind,
+            field: field.to_string(),
+            args,
+        });
+    }
+    /// Return and clear what was logged since the last call.
+    pub fn take(&self) -> Vec<Event> {
+        std::mem::take(&mut *self.0.lock().unwrap())
+    }
+}
+
+pub fn events_json(ev: &[Event]) -> vh_core::serde_json::Value {
+    vh_core::serde_json::Value::Array(
+        ev.iter()
+            .map(|e| vh_core::serde_json::json!({"kind": e.kind, "field": e.field, "args": e.args}))
+            .collect(),
+    )
+}
+
 fn main() {
     let id = std::env::args().nth(1).unwrap_or_default();
-    println!("INCONCLUSIVE property={id} reason=vh-gate has no check for this property yet");
-    std::process::exit(2);
+    match id.as_str() {
+        "C19" => c19::main(),
+        "C21" => c21::main(),
+        "C31" => c31::main(),
+        other => {
+            println!("INCONCLUSIVE property={other} reason=vh-gate has no check for this property");
+            std::process::exit(2);
+        }
+    }
 }
